@@ -201,7 +201,9 @@ class Execution(object):
         try:
             io.play([0.0], chunk_size=CHUNK)
             self.post_play_raised = False
-        except RuntimeError:
+        except schedmod.SchedAbort:
+            raise
+        except Exception:                # "play raises": C17 does not name the class
             self.post_play_raised = True
         self.obs.append({"k": "ret-play", "t": 0, "n": 1 if self.post_play_raised else 0})
 
